@@ -12,7 +12,9 @@ MUTANTS = [
     ('coordinate only for first medium', [('mininec.Medium.as_basic_input', "        if self.next:\n            # X OR R COORDINATE OF NEXT MEDIA INTERFACE:", "        if self.next and not self.prev:\n            # X OR R COORDINATE OF NEXT MEDIA INTERFACE:")], ['media-prompts']),
     ('height for every medium', [('mininec.Medium.as_basic_input', "        if self.prev:\n            # HEIGHT OF MEDIA:", "        if True:\n            # HEIGHT OF MEDIA:")], ['media-prompts']),
     ('second wire end not snapped to the ground', [('mininec.Wire.compute_ground', "        if abs (self.p2 [-1]) < eps:\n            self.p2 [-1] = 0.0\n", "")], ['grounded-end']),
+    ('unit factors as a numpy integer power', [('mininec.Laplace_Load.as_basic_input', "                f = 10 ** (6 * d)", "                f = (10 ** (6 * np.arange (self.degree + 1))) [d]")], ['integer-power']),
 ]
 REFACTORS = [
     ('source triple via temporaries', [('mininec.Excitation.as_basic_input', "r.append ('%d, %g, %g' % (self.idx + 1, self.magnitude, self.phase_d))", "ph = self.phase_d\n        r.append ('%d, %g, %g' % (self.idx + 1, self.magnitude, self.phase_d))")]),
+    ('unit factors as a float power', [('mininec.Laplace_Load.as_basic_input', "                f = 10 ** (6 * d)", "                f = (10.0 ** (6 * np.arange (self.degree + 1))) [d]")]),
 ]
